@@ -6,7 +6,7 @@
    text is what the generator produces today (freshness).                                      *)
 EXTENDS Integers, Sequences, FiniteSets, TLC, Json, IOUtils
 
-CONSTANTS MaxLen, EmitBeh
+CONSTANTS MaxLen, EmitBeh, SameKeyOnly
 
 Data == JsonDeserialize(IOEnv.CACHE_DATA)     \* [nf, key: seq, src: seq of <<s0,s1>>, preseed: seq of <<key,src>>]
 DKey(f)     == Data.key[f]
